@@ -14,7 +14,9 @@ tree, fans the check out over worker processes, merges what the monitors observe
 import json, os, sys, subprocess, time, shutil, re, argparse, hashlib
 
 VERIF = os.path.dirname(os.path.abspath(__file__))
-HARNESS = os.path.join(VERIF, "harness")
+# VERIF_HARNESS_DIR / VERIF_REPO_DIR: only used by snapshot runs (thorough_snapshot.sh) so that a long
+# background run is not disturbed by edits to /repo; the registered checks always use /verif + /repo
+HARNESS = os.environ.get("VERIF_HARNESS_DIR", os.path.join(VERIF, "harness"))
 VH = os.path.join(HARNESS, "target", "release", "vh")
 OUT = os.path.join(VERIF, "out")
 EVID = os.path.join(VERIF, "evidence")
